@@ -443,7 +443,7 @@ pub fn main(ctx: &Ctx) -> i32 {
                     match judge(&s, &o) {
                         Ok(nt) => {
                             ctx.case(if nt { Some(hash_of(&s)) } else { None });
-                            if i % 37 == w {
+                            {
                                 ctx.sample(json!({"scenario": format!("{:?}", s), "result": format!("{:?}", o.result), "returned_at_ms": o.returned_at, "flag_set_at_ms": o.flag_set_at, "connects_ms": o.connects, "closes_ms": o.closes.iter().take(6).collect::<Vec<_>>()}));
                             }
                         }
